@@ -475,50 +475,105 @@ mod proofs {
         Some(cur)
     }
 
-    #[kani::proof]
-    #[kani::unwind(34)]
-    #[kani::stub(alloc::fmt::format, fmt_stub)]
-    #[kani::stub(qp_poseidon_core::hash_to_bytes, hash_model)]
-    fn native_verify_accepts_exactly_valid_paths_depth_le_1() {
-        let depth: usize = kani::any();
-        kani::assume(depth <= 1);
-        let npos: usize = kani::any();
-        kani::assume(npos <= 2);
-        // hashes: symbolic first limb, other limbs zero (stated bound); the root is fully symbolic
+    /// depth fixed per harness (concrete loop bounds); hashes: symbolic first limb, other limbs zero; root fully symbolic
+    fn native_verify_exact<const DEPTH: usize>() {
         let leaf = first_limb_hash();
         let root: [u8; 32] = kani::any();
-        let sibs_all: [[[u8; 32]; 3]; 2] = [[first_limb_hash(), first_limb_hash(), first_limb_hash()], [first_limb_hash(), first_limb_hash(), first_limb_hash()]];
-        let pos_all: [u8; 3] = kani::any();
-        let mut siblings: Vec<[[u8; 32]; 3]> = Vec::with_capacity(2);
+        let mut siblings: Vec<[[u8; 32]; 3]> = Vec::with_capacity(DEPTH);
+        let mut sib_arr = [[[0u8; 32]; 3]; DEPTH];
+        let mut positions: Vec<u8> = Vec::with_capacity(DEPTH);
+        let mut pos_arr = [0u8; DEPTH];
         let mut i = 0;
-        while i < depth {
-            siblings.push(sibs_all[i]);
-            i += 1;
-        }
-        let mut positions: Vec<u8> = Vec::with_capacity(3);
-        let mut i = 0;
-        while i < npos {
-            positions.push(pos_all[i]);
+        while i < DEPTH {
+            sib_arr[i] = [first_limb_hash(), first_limb_hash(), first_limb_hash()];
+            siblings.push(sib_arr[i]);
+            pos_arr[i] = kani::any();
+            positions.push(pos_arr[i]);
             i += 1;
         }
         let proof = zm::ZkMerkleProof::new(0, siblings, positions, leaf, root);
         let got = proof.verify_with_positions();
-        let mut expect = depth == npos && canonical32(&leaf);
+        let mut expect = canonical32(&leaf);
         let mut i = 0;
-        while i < depth {
-            expect = expect && canonical32(&sibs_all[i][0]) && canonical32(&sibs_all[i][1]) && canonical32(&sibs_all[i][2]);
+        while i < DEPTH {
+            expect = expect && canonical32(&sib_arr[i][0]) && canonical32(&sib_arr[i][1]) && canonical32(&sib_arr[i][2]);
             i += 1;
         }
         if expect {
-            match ref_fold(leaf, &sibs_all[..depth], &pos_all[..depth]) {
-                Some(r) => expect = r == root,
+            match ref_fold(leaf, &sib_arr, &pos_arr) {
+                Some(r) => {
+                    expect = limb(&r, 0) == limb(&root, 0) && limb(&r, 1) == limb(&root, 1) && limb(&r, 2) == limb(&root, 2) && limb(&r, 3) == limb(&root, 3)
+                }
                 None => expect = false,
             }
         }
+        if DEPTH == 1 {
+            // diagnostics split by direction
+            assert!(!got || expect, "accepted but the reference rejects");
+            assert!(!expect || got, "reference accepts but rejected");
+        }
         assert_eq!(got, expect);
-        kani::cover!(got && depth == 1);
-        kani::cover!(!got && depth == npos);
-        kani::cover!(got && depth == 0);
+        kani::cover!(got);
+        kani::cover!(!got);
+        core::mem::forget(proof);
+    }
+
+    #[kani::proof]
+    #[kani::unwind(34)]
+    #[kani::stub(alloc::fmt::format, fmt_stub)]
+    #[kani::stub(qp_poseidon_core::hash_to_bytes, hash_model)]
+    fn native_verify_exact_depth_0() {
+        native_verify_exact::<0>();
+    }
+
+    #[kani::proof]
+    #[kani::unwind(34)]
+    #[kani::stub(alloc::fmt::format, fmt_stub)]
+    #[kani::stub(qp_poseidon_core::hash_to_bytes, hash_model)]
+    fn native_verify_exact_depth_1() {
+        native_verify_exact::<1>();
+    }
+
+    #[kani::proof]
+    #[kani::unwind(34)]
+    #[kani::stub(alloc::fmt::format, fmt_stub)]
+    #[kani::stub(qp_poseidon_core::hash_to_bytes, hash_model)]
+    fn probe_presorted_vs_model() {
+        let ch = [any_canonical_first(), any_canonical_first(), any_canonical_first(), any_canonical_first()];
+        let r = zm::hash_node_presorted(&ch);
+        assert!(r.is_ok());
+        let calls_after_real = unsafe { CALLS };
+        assert!(calls_after_real == 1);
+        let mut pre = [Goldilocks::new(0); 16];
+        let mut k = 0;
+        while k < 16 {
+            pre[k] = Goldilocks::new(limb(&ch[k / 4], k % 4));
+            unsafe {
+                assert!(LAST_PRE[k] == limb(&ch[k / 4], k % 4));
+            }
+            k += 1;
+        }
+        let m = hash_model(&pre);
+        let h = r.unwrap();
+        assert!(limb(&h, 0) == limb(&m, 0));
+        assert!(limb(&h, 1) == limb(&m, 1));
+    }
+    fn any_canonical_first() -> [u8; 32] {
+        let h = first_limb_hash();
+        kani::assume(limb(&h, 0) < P);
+        h
+    }
+
+    /// position count != sibling count is rejected (length-only)
+    #[kani::proof]
+    #[kani::unwind(34)]
+    fn native_verify_rejects_position_count_mismatch() {
+        let leaf = [0u8; 32];
+        let mut siblings: Vec<[[u8; 32]; 3]> = Vec::with_capacity(1);
+        siblings.push([[0u8; 32]; 3]);
+        let positions: Vec<u8> = Vec::new();
+        let proof = zm::ZkMerkleProof::new(0, siblings, positions, leaf, leaf);
+        assert!(!proof.verify_with_positions());
         core::mem::forget(proof);
     }
 
